@@ -368,7 +368,18 @@ def gen_plan(rng, tier="quick", prop="C18"):
                      and int(np.prod([n for _, n in metas[s]["recipe"]["dims"]] or [1])) <= 3 and metas[s]["recipe"]["nf"] * metas[s]["recipe"]["nd"] <= 64]
             if cands:
                 ud = [None, None, ["alpha", "gamma"], ["alpha", "dpspr"], ["gamma"]]
-                first = {"op": "reconstruct", "slot": rng.choice(cands), "parts": rng.choice([1, 2]), "method": rng.choice(["ptm3", "ptm3", "ptm1"]), "use_defaults": rng.choice(ud)}
+                first = {"op": "reconstruct", "slot": rng.choice(cands), "parts": rng.choice([1, 2]), "method": rng.choice(["ptm3", "ptm3", "ptm1", "ptm2"]), "use_defaults": rng.choice(ud)}
+                r_ = rng.random()
+                if r_ < 0.2:
+                    first["freq_name"] = [rng.choice(["jonswap", "gaussian", "pierson_moskowitz"]) for _ in range(first["parts"])]
+                elif r_ < 0.3:
+                    first["dir_name"] = ["asymmetric"] * first["parts"]
+                elif r_ < 0.4:
+                    first["method_combine"] = "sum"
+                elif r_ < 0.47:
+                    first["method"] = "ptm4"                          # not a supported method: must be refused
+                elif r_ < 0.54:
+                    first["freq_name"] = ["jonswap"] * (first["parts"] + 1)      # wrong length: must be refused
                 steps.append(first)
                 if rng.random() < 0.5:
                     # the same entry point again with other options (on the same or another dataset)
@@ -402,7 +413,7 @@ def shape(plan):
         elif op == "construct":
             parts.append(f"construct:{st['freq_name']}:{len(st['fk']['freq'])}x{len(st['dk']['dir'])}:{st.get('defaults')}")
         elif op == "reconstruct":
-            parts.append(f"reconstruct{st['slot']}:{st['parts']}:{st['method']}:{st.get('use_defaults')}")
+            parts.append(f"reconstruct{st['slot']}:{st['parts']}:{st['method']}:{st.get('use_defaults')}:{st.get('freq_name')}:{st.get('dir_name')}:{st.get('method_combine')}")
         elif op == "writer":
             parts.append(f"write{st['slot']}:{st['fmt']}:{st['file']}:{st.get('fault')}")
         else:
@@ -613,12 +624,17 @@ def run_construct(st, fk, dk):
     return construct_partition(st["freq_name"], st["dir_name"], fk, dk)
 
 
-def run_reconstruct(ds, st):
+def run_reconstruct(ds, st, args=None):
     from wavespectra.construct import partition_and_reconstruct
 
     kw = {}
     if st.get("use_defaults") is not None:
         kw["use_defaults"] = list(st["use_defaults"])
+    for k in ("freq_name", "dir_name", "method_combine"):
+        if st.get(k) is not None:
+            kw[k] = list(st[k]) if isinstance(st[k], list) else st[k]
+    if args:
+        kw.update(args)         # the caller's own list objects
     return partition_and_reconstruct(ds, parts=st["parts"], partition_method=st["method"], **kw)
 
 
@@ -639,6 +655,7 @@ def call_args(store, call):
         kind = "colview" if call.get("as_array") else "list"
         args["lons"] = store.get(kind, list(call["lons"]))
         args["lats"] = store.get("array" if call.get("as_array") else "list", list(call["lats"]))
+
     elif m == "plot" and call.get("subplot_kws"):
         args["subplot_kws"] = store.get("dict", dict(call["subplot_kws"]))
     elif m == "interp":
@@ -1083,11 +1100,18 @@ def execute(arg):
                 continue
             # make sure argument objects exist before the snapshot (the caller owns them up front)
             args = call_args(store, st["call"]) if op == "call" else {}
+            if op == "call" and st["call"].get("dset_lonlat") and sid in slots and slots[sid].kind == "ds" and "lon" in slots[sid].obj.variables:
+                # the caller's own copies of the station positions, as of now
+                store.objs[f"dsetlons{sid}"] = np.array(slots[sid].obj["lon"].values)
+                store.objs[f"dsetlats{sid}"] = np.array(slots[sid].obj["lat"].values)
+                args = dict(args, dset_lons=store.objs[f"dsetlons{sid}"], dset_lats=store.objs[f"dsetlats{sid}"])
             wargs = {}
             if op == "writer" and st.get("lonlat_args"):
                 wargs = {"lons": store.get("array", st["lonlat_args"][0]), "lats": store.get("array", st["lonlat_args"][1])}
             if op == "construct":
                 fk, dk = construct_kwargs(store, st)
+            if op == "reconstruct":
+                rargs = {k: store.get("list", list(st[k])) for k in ("use_defaults", "freq_name", "dir_name") if isinstance(st.get(k), list)}
             if op == "bad" and st["bad"]["k"] == "ptm_coords_close" and sid in slots and slots[sid].kind in ("ds", "da"):
                 ex = store.objs.setdefault(f"badargs{sid}", {})
                 if "dpt32" not in ex:
@@ -1154,7 +1178,7 @@ def execute(arg):
                     if sl.kind != "ds":
                         continue
                     req = {"kind": "reconstruct", "st": st}
-                    res_c = cmp.canon(run_reconstruct(sl.obj, st))
+                    res_c = cmp.canon(run_reconstruct(sl.obj, st, rargs))
                     sim.count("reconstruct_calls")
                 elif op == "native":
                     from wavespectra.partition import specpart
